@@ -124,13 +124,14 @@ class C18(Oracle):
                                         {"container": ch, "identifier": ident.uri, "spelling": label})
                 break
         # bare local names: denote <default namespace in scope> + local, or nothing
-        d = c.get_default_namespace()
-        if d is None and c.is_bundle() and c.document is not None:
-            d = c.document.get_default_namespace()
         for local in BARE:
+            # "the URI x denotes" is what the container itself resolves x to (whether that is
+            # the right URI is C03's business, not C18's)
+            q = c.valid_qualified_name(local)
+            d = None if q is None else q.namespace
             got = c.get_record(local)
             self.count("lookups_bare")
-            exp = [] if d is None else by_uri.get(d.uri + local, [])
+            exp = [] if q is None else by_uri.get(q.uri, [])
             if exp:
                 self.probe("bare_lookup_hit")
             if not same_objects(list(got or []), exp):
